@@ -129,6 +129,9 @@ func generate(cfg *hx.Config) []hx.Case {
 		cfg.Count("kind=" + kind)
 		if in[0] == "TUN" {
 			cfg.Count("via=" + in[1])
+			if i := strings.IndexByte(in[1], '+'); i >= 0 {
+				cfg.Count("listener=" + in[1][i:])
+			}
 			if in[2] != "e0" {
 				cfg.Count("early>0")
 			}
@@ -229,6 +232,52 @@ func generate(cfg *hx.Config) []hx.Case {
 		}
 	}
 
+	// 1d. client-facing listener kinds: TLS (+s) and connections that are net.Conn only (+w);
+	// byte-exact delivery and EOS ordering in both directions, sizes around multiples of 4096
+	lsizes := []int{1, 1000, 4095, 4096, 4097, 8191, 8192, 8193, 10000}
+	for _, v := range []string{"D", "M", "F"} {
+		for _, lk := range []string{"+s", "+w"} {
+			for i, sz := range lsizes {
+				e := []int{0, 10, 4060}[i%3]
+				// target sends sz and shuts at once; (client then shuts: nothing left to do on +w)
+				add("lsn", []string{"TUN", v + lk, fmt.Sprintf("e%d", e), "b0", "c5/t6", fmt.Sprintf("c/t%dh", sz), "ch/t"})
+				// target sends sz and waits: must arrive without the tunnel ending; client answers, shuts first
+				add("lsn", []string{"TUN", v + lk, fmt.Sprintf("e%d", e), "b7", fmt.Sprintf("c/t%d", sz), fmt.Sprintf("c%d/t", sz), "ch/t", fmt.Sprintf("c/t%dh", sz)})
+			}
+			for _, en := range [][]string{
+				{"c5/t6", "ch/t", "c/t9", "c/th"},
+				{"c5/t6", "c/th"},
+				{"c5/t6", "ca/t", "c/th"},
+				{"c5/t6", "c/ta"},
+				{"c5/t6", "cu/t100", "c/th"},
+				{"c5/t6", "cf/t", "c/tf"},
+				{"c5/t6", "c/tf", "Pq"},
+				{"c5/t6", "c/ta", "Pr"},
+			} {
+				add("lsn", append([]string{"TUN", v + lk, "e1", "b0"}, en...))
+			}
+		}
+	}
+	add("lsn", []string{"TUN", "D+s", "e0", "b0", "c65536x8/t4097x100", "c100h/t", "c/t100h"})
+	add("lsn", []string{"TUN", "D+w", "e0", "b0", "c65536x8/t4097x100", "c100h/t", "c/t100h"})
+	for _, en := range [][]string{{"c5/t6", "c/t3h", "c9/t", "c2h/t"}, {"c5/t6", "c/t4097h", "c4097h/t"}} {
+		add("lsn", append([]string{"TUN", "D+s", "e0", "b0"}, en...)) // half close by the target first: TLS can
+	}
+
+	// 1e. the downstream proxy's answer: every 2xx announces the tunnel; refusals are relayed
+	for _, f := range []string{"F201", "F202r", "F299", "F204", "F200c", "F226c", "F200r"} {
+		for _, e := range []int{0, 10} {
+			for _, b := range []int{0, 7} {
+				add("dst", []string{"TUN", f, fmt.Sprintf("e%d", e), fmt.Sprintf("b%d", b), "c5/t6", "ch/th"})
+			}
+		}
+		add("dst", []string{"TUN", f, "e4060", "b4090", "c4097/t4095", "c/t3h", "c9/t", "c2h/t"})
+		add("dst", []string{"TUN", f + "+s", "e1", "b7", "c5/t6", "c/th", "ch/t"})
+	}
+	for _, d := range []string{"407b", "403c", "502n", "302c", "500b", "404n", "503c"} {
+		add("down", []string{"DOWN", d})
+	}
+
 	// 2. early data / banner boundaries around the 4096-byte bufio buffers
 	for _, v := range vias {
 		for _, e := range earlies[3:] {
@@ -247,7 +296,14 @@ func generate(cfg *hx.Config) []hx.Case {
 	for k := 0; k < nr; k++ {
 		r := rng.Fork()
 		big := r.Chance(1, 4)
-		in := []string{"TUN", vias[r.Intn(3)], fmt.Sprintf("e%d", earlies[r.Intn(len(earlies))]), fmt.Sprintf("b%d", banners[r.Intn(len(banners))])}
+		via := vias[r.Intn(3)]
+		if via == "F" && r.Chance(1, 2) {
+			via = []string{"F201", "F202r", "F299", "F204", "F200c"}[r.Intn(5)]
+		}
+		if r.Chance(1, 4) {
+			via += "+s"
+		}
+		in := []string{"TUN", via, fmt.Sprintf("e%d", earlies[r.Intn(len(earlies))]), fmt.Sprintf("b%d", banners[r.Intn(len(banners))])}
 		np := r.Range(1, 4)
 		for i := 0; i < np; i++ {
 			in = append(in, "c"+maybeWrites(r, big, 3, 4)+"/t"+maybeWrites(r, big, 3, 4))
